@@ -29,7 +29,9 @@ PTypes == {"string", "int", "bool", "iface"}
 ArgKinds == {"str", "int", "bool", "nil", "hash", "arr", "strs"}
 ArgType(a) == CASE a = "str" -> "string" [] a = "int" -> "int" [] a = "bool" -> "bool" [] a = "hash" -> "map" [] a = "nil" -> "nil"
                 [] a = "arr" -> "anyslice" [] a = "strs" -> "strslice"
-Results == {"none", "T", "Tnil", "Terr", "err", "nilerr"}     \* (), (T), (T, nil error), (T, failing error), (failing error), (nil error)
+\* (), (T), (T, nil error), (T, failing error), (failing error), (nil error); Snil / Serr: (struct, nil error) / (struct, failing
+\* error) where the call is followed by a member path (h(...).Name)
+Results == {"none", "T", "Tnil", "Terr", "err", "nilerr", "Snil", "Serr"}
 
 \* parameter list of a signature: fixed ... [map] [helper context]   or   fixed ... variadic
 Params(s) == s.fixed \o (IF s.map THEN <<"map">> ELSE <<>>) \o (IF s.hc # "none" THEN <<s.hc>> ELSE <<>>)
